@@ -1004,3 +1004,5 @@ RULE += (' Added: user callables / fill methods that raise StopIteration for one
 RULE += (' Added: every plain callable of a chain also given as a *args lambda, an object whose '
          '__call__ takes *values, an undecorated wrapper, a functools.partial, a bound method with '
          'an optional argument, a lambda with keyword defaults.')
+
+RULE += (' Round 10: programs of 7..24 elements / flows of 17..400 values / nesting to depth 7 / Splits of 5..12 branches; chains of 150..900 elements; run-copy-run histories (deepcopy, pickle) of Sequence / nested / Source; variables with attributes named run / fill / compute / request.')
